@@ -132,7 +132,7 @@ pub fn delete(defs: &BTreeMap<String, TableDef>, pre: &Tables, table: &str, sele
 }
 
 /// `pairs` = (old image, new image) of every affected row.
-pub fn update(defs: &BTreeMap<String, TableDef>, pre: &Tables, table: &str, pairs: &[(Vec<SqlValue>, Vec<SqlValue>)]) -> Verdict {
+pub fn update(defs: &BTreeMap<String, TableDef>, pre: &Tables, table: &str, pairs: &[(Vec<SqlValue>, Vec<SqlValue>)], assigned_cols: &[usize]) -> Verdict {
     let def = match defs.get(table) {
         Some(d) => d,
         None => return Verdict::Unknown("table".into()),
@@ -155,6 +155,13 @@ pub fn update(defs: &BTreeMap<String, TableDef>, pre: &Tables, table: &str, pair
             None => return Verdict::Unknown("parent col".into()),
         };
         let changed: Vec<(&SqlValue, &SqlValue)> = pairs.iter().map(|(o, n)| (&o[pc], &n[pc])).filter(|(o, n)| !o.is_null() && vnorm(o) != vnorm(n)).collect();
+        if assigned_cols.iter().any(|c| *c == pc)
+            && pre[&cdef.name].iter().any(|c| pairs.iter().any(|(o, n)| same(&c[fk.col], &o[pc]) && vnorm(&o[pc]) == vnorm(&n[pc])))
+        {
+            // the referenced column of a referenced row is assigned its own value: whether that
+            // counts as an update of the key for ON UPDATE purposes is not settled by the statement
+            return Verdict::Unknown("referenced column assigned unchanged value".into());
+        }
         if changed.is_empty() {
             continue;
         }
